@@ -10,14 +10,20 @@
    construct classes; each is kept as `*_refuted` (witness by vm_compute, replayed on the real loaders by
    vlib/props/C15.py) next to a `*_partial` theorem under a decidable exclusion naming the construct class. *)
 From Coq Require Import ZArith List Bool String Lia.
-From Defs Require Import Gen.TypeTables Model.Layout Model.Emit Proofs.LayoutProofs Proofs.TablesProofs
+From Defs Require Import Gen.TypeTables Gen.EmitGuards Model.Layout Model.Emit Proofs.LayoutProofs Proofs.TablesProofs
   Proofs.EmitCombined Proofs.EmitScope Proofs.EmitJs Proofs.EmitTotal.
 Import ListNotations.
 Open Scope string_scope. Open Scope list_scope. Open Scope Z_scope.
 
 (* ---------------------------------------------------------------- C15_total: no internal error
    for EVERY closure: the model of Parser.parse (add_fields, check_alignment, the final ctypes size assert with
-   get_ctype_cls's own table and its alias branches) accepts or rejects with a parser error; it never crashes. *)
+   get_ctype_cls's own table and its alias branches) accepts or rejects with a parser error; it never crashes.
+   Universe of constant / array-length expressions (cexpr): integer literals, references to constants of any file
+   read earlier, + - *, and TRUE division by a positive integer literal (`A / 2`, `(A + B) / 2`, `5 / 2`).  A
+   division makes the value a Python float (8.0, 2.5); the length of a field is int() of the evaluated expression
+   (truncation toward zero; Gen/EmitGuards.v is regenerated from add_fields on every run and the translator fails
+   closed when the int() conversion or the `< 1` test is no longer there), so every length the layout, the ctypes
+   size assert and the back ends see is an integer >= 1. *)
 Theorem C15_total : forall ap l k, parse_items ap l <> PCrash k.
 Proof. exact parse_never_crashes. Qed.
 
@@ -33,6 +39,26 @@ Definition alias_struct_field_closure : closure :=
 Example C15_total_ex : (exists st, parse_items true signed_char_items = POk st /\ map pd_size (ps_structs st) = [4]) /\
   (exists st, parse_closure true alias_struct_field_closure = POk st /\ map pd_size (ps_structs st) = [4; 12]).
 Proof. split; eexists; split; vm_compute; reflexivity. Qed.
+
+(* lengths and constants written with a true division: constants keep the float (H = 8.0, Q = 10.5, T = 24.0,
+   N = -9.5), lengths are truncated integers (char[H] = 8, int16[Q] = 10, double[5 / 2] = 2, int8[T / 16] = 1);
+   a length that truncates to 0 is rejected with RTMASyntaxError (1 / 2; M + 2 with M = -1.5) *)
+Definition div_items : list item :=
+  [IConst "W" (CLit 16); IConst "H" (CDiv (CRef "W") 2); IConst "Q" (CDiv (CAdd (CRef "W") (CLit 5)) 2);
+   IConst "T" (CMul (CRef "H") (CLit 3)); IConst "N" (CSub (CLit 1) (CRef "Q"));
+   IStruct "S" (BFields [mkFd "a" "char" (Some (CRef "H")); mkFd "b" "int16" (Some (CRef "Q"));
+                         mkFd "c" "double" (Some (CDiv (CLit 5) 2)); mkFd "d" "int8" (Some (CDiv (CRef "T") 16))])].
+Example C15_total_div_ex :
+  (exists st, parse_items true div_items = POk st /\
+     map snd (ps_consts st) = [VInt 16; VFlt (mkRat 8 1); VFlt (mkRat 21 2); VFlt (mkRat 24 1); VFlt (mkRat (-19) 2)] /\
+     map (fun d => (pd_size d, map (fun p => (pf_name p, pf_len p)) (pd_fields d))) (ps_structs st) =
+       [(56, [("a", Some 8); ("b", Some 10); ("padding_0_", Some 4); ("c", Some 2); ("d", Some 1); ("padding_1_", Some 7)])] /\
+     (scoped [] (events_py st), scoped [] (events_c st), scoped [] (events_matlab st), js_import_ok st) = (true, true, true, true)) /\
+  parse_items true [IStruct "S" (BFields [mkFd "a" "int8" (Some (CDiv (CLit 1) 2))])] = PReject RSyntax /\
+  parse_items true [IConst "M" (CDiv (CLit (-3)) 2); IStruct "S" (BFields [mkFd "a" "int8" (Some (CAdd (CRef "M") (CLit 2)))])]
+    = PReject RSyntax /\
+  add_fields_length_min = 1.
+Proof. split; [eexists; repeat split; vm_compute; reflexivity|]. repeat split; vm_compute; reflexivity. Qed.
 
 (* ---------------------------------------------------------------- C15_scoped, per back end
    FULL: forall ap l st, parse_items ap l = POk st -> scoped [] (events_b st) = true. *)
